@@ -495,7 +495,11 @@ def render_fn(sf, item, d, drops, em, canary, take_opts=()):
             # loops without invariants are allowed (Verus will complain if it needs one)
             pass
         for (where, lit, text, uline) in d.inserts:
-            k = src.find(lit, body_open + 1, body_close)
+            if where.endswith('_last'):
+                k = src.rfind(lit, body_open + 1, body_close)
+                where = where[:-5]
+            else:
+                k = src.find(lit, body_open + 1, body_close)
             if k < 0:
                 raise LostAnchor('%s: anchor %r not found' % (d.path, lit))
             ls = src.rfind('\n', 0, k) + 1
